@@ -46,9 +46,26 @@ func (ex *Exec) pureContractCall(st *State, x *ssa.Call, pc Term) (Value, bool) 
 		org = callee.Origin()
 	}
 	env := &Env{ex: ex, cur: st, old: st, vars: map[string]TV{}, cf: cf, inQuant: 1}
-	for i, p := range org.Params {
-		if i < len(x.Call.Args) {
-			env.vars[p.Name()] = TV{st.val(x.Call.Args[i]), x.Call.Args[i].Type()}
+	// parameter names: the contract's own (ext declarations name them), else the function's, else the signature's
+	var pnames []string
+	if len(spec.Params) > 0 {
+		pnames = spec.Params
+	} else if len(org.Params) > 0 {
+		for _, p := range org.Params {
+			pnames = append(pnames, p.Name())
+		}
+	} else {
+		sig := callee.Signature
+		if sig.Recv() != nil {
+			pnames = append(pnames, sig.Recv().Name())
+		}
+		for i := 0; i < sig.Params().Len(); i++ {
+			pnames = append(pnames, sig.Params().At(i).Name())
+		}
+	}
+	for i, n := range pnames {
+		if i < len(x.Call.Args) && n != "" {
+			env.vars[n] = TV{st.val(x.Call.Args[i]), x.Call.Args[i].Type()}
 		}
 	}
 	for _, r := range spec.Requires {
